@@ -1,7 +1,7 @@
 """C19 — No input makes the library panic, overflow the stack, or run away."""
 from tools.lv import hexs
 
-LEVEL = "model+correspondence"
+LEVEL = "other"
 JOBS = 16
 UNOPTIMISED_BUILD = True
 ENTRIES = ["addr", "addrnew", "mbox", "mboxes", "mboxname", "ctype", "cdisp", "date", "dateparse", "url", "aurl", "resp", "hval", "hname",
